@@ -7,6 +7,12 @@ from ..symexec import Exec, Env, subst_expr, norm_minmax, assigned_vars
 from . import kern
 
 
+class _EnvelopeMismatch(Exception):
+    def __init__(self, ranges, line):
+        Exception.__init__(self, 'envelope ranges differ')
+        self.ranges, self.line = ranges, line
+
+
 def _envelope_facts(name, body, params, lang, consts=None):
     """-> (lo term, hi term, facts dict) for the envelope of element i."""
     amap = kernels.AtomMap(lang, params, (params[-1],) if lang == 'c' else ())
@@ -36,8 +42,10 @@ def _envelope_facts(name, body, params, lang, consts=None):
         for e in loops:
             lp = e[2]
             rng.add((norm_minmax(subst_expr(lp.lo, e[3])), norm_minmax(subst_expr(lp.hi, e[3]))))
+        if len(rng) > 1:
+            raise _EnvelopeMismatch(sorted(rng, key=repr), loops[0][2].line)
         if len(rng) != 1:
-            raise AnalysisError('unrecognised shape: envelope scans of %s use %d different ranges' % (name, len(rng)))
+            raise AnalysisError('unrecognised shape: no envelope scan in %s' % name)
         lo_e, hi_e = list(rng)[0]
     else:
         sl = set()
@@ -122,7 +130,13 @@ def rule_lb_keogh(ctx, m):
     for nm, body, params, lang, file, consts in copies:
         # python: skip the use_c delegation branch
         b = body
-        lo, hi, rows, outer, ex2, out = _envelope_facts(nm, b, params, lang, consts)
+        try:
+            lo, hi, rows, outer, ex2, out = _envelope_facts(nm, b, params, lang, consts)
+        except _EnvelopeMismatch as exn:
+            ctx.violation('R-BAND', file, nm, 'envelope scans over one window',
+                          'the upper and the lower envelope of an element must be the maximum and the minimum over the SAME window of series 2; the scans run over %s -- '
+                          'an element left out of one extremum makes the bound exceed the DTW distance' % ' and '.join('[%s, %s)' % (fmt(a), fmt(b_)) for a, b_ in exn.ranges), exn.line)
+            continue
         kern._equiv_cases(ctx, 'R-BAND', file, nm, 'envelope lower index', lo, kern.canon_lo(), lang, 'envelope lower index', outer.line)
         kern._equiv_cases(ctx, 'R-BAND', file, nm, 'envelope upper index', hi, kern.canon_hi(), lang, 'envelope upper index', outer.line)
         ctx.check(rows == V('L1'), 'R-BAND', file, nm, 'envelope rows', 'the bound sums over every element of series 1', outer.line)
